@@ -35,9 +35,16 @@ Definition SNOW_MAX : N := 65535.
 
 (* carrier script entries at or above SPECIAL are faults *)
 Definition SPECIAL : N := 1099511627776.   (* 2^40 *)
-(* io::ErrorKind as reported in traces: 1 UnexpectedEof, 2 InvalidData, 3 PermissionDenied,
-   5 WriteZero, 6 ConnectionReset, 7 BrokenPipe, 8 TimedOut, 9 Other *)
-Definition ecode (k : N) : N := if (6 <=? k) && (k <=? 8) then k else 9.
+(* io::ErrorKind as reported in traces (the table `KINDS` of harness/src/c02.rs, every stable
+   variant of std::io::ErrorKind): 1 UnexpectedEof, 2 InvalidData, 3 PermissionDenied, 4 is not a
+   kind (reserved: E_MODEL), 5 WriteZero, 6 ConnectionReset, 7 BrokenPipe, 8 TimedOut, 9 Other,
+   10 NotFound, ... NKINDS OutOfMemory.  A carrier error passes through the socket unchanged:
+   script entry SPECIAL + k makes the carrier call return Err(kind k) and the socket reports
+   kind k — including the kinds the socket produces itself (a TLS carrier does return
+   InvalidData).  Entries outside the table stand for Other. *)
+Definition NKINDS : N := 40.
+Definition ecode (k : N) : N :=
+  if (1 <=? k) && (k <=? NKINDS) && negb (k =? 4) then k else 9.
 Definition E_WRITEZERO : N := 5.
 Definition E_BROKENPIPE : N := 7.
 
@@ -457,7 +464,14 @@ Inductive tamper :=
 | TDrop (i : N)
 | TDup (i : N)             (* item i is delivered twice in a row (replay) *)
 | TSwap (i : N)            (* items i and i+1 exchanged *)
-| TTrunc (pos : N).        (* the carrier ends after pos bytes *)
+| TTrunc (pos : N)         (* the carrier ends after pos bytes *)
+| TMove (i j : N)          (* item i taken out and re-inserted before position j of the rest (reorder) *)
+| TCopy (i j : N)          (* a copy of item i inserted before position j (replay at a distance) *)
+| TForge (i h bl : N)      (* a forged item (header h mod 2^16, bl body bytes) inserted before position i *)
+| TGrow (i : N)            (* one byte inserted into the body of item i (the header is left alone) *)
+| TShrink (i : N)          (* one byte removed from the body of item i *)
+| TForeign (i : N).        (* the body of item i replaced by a same-length ciphertext of another
+                              session made with the same nonce *)
 
 Fixpoint map_nth {A} (f : A -> list A) (i : nat) (l : list A) : list A :=
   match l, i with
@@ -481,6 +495,23 @@ Fixpoint swap_at (i : nat) (l : list item) : list item :=
   | _, _ => l
   end.
 
+Fixpoint insert_at {A} (i : nat) (x : A) (l : list A) : list A :=
+  match i, l with
+  | O, _ => x :: l
+  | S j, [] => [x]
+  | S j, h :: t => h :: insert_at j x t
+  end.
+
+Fixpoint remove_at {A} (i : nat) (l : list A) : list A :=
+  match l, i with
+  | [], _ => []
+  | _ :: t, O => t
+  | h :: t, S j => h :: remove_at j t
+  end.
+
+Definition shrink_item (it : item) : item :=
+  if i_blen it =? 0 then it else mkItem (i_hdr it) (i_blen it - 1) None.
+
 Definition apply_tamper (t : tamper) (l : list item) : list item :=
   match t with
   | TNone | TTrunc _ => l
@@ -488,14 +519,178 @@ Definition apply_tamper (t : tamper) (l : list item) : list item :=
   | TDrop i => map_nth (fun _ => []) (N.to_nat i) l
   | TDup i => map_nth (fun it => [it; it]) (N.to_nat i) l
   | TSwap i => swap_at (N.to_nat i) l
+  | TMove i j =>
+      match nth_error l (N.to_nat i) with
+      | Some it => insert_at (N.to_nat j) it (remove_at (N.to_nat i) l)
+      | None => l
+      end
+  | TCopy i j =>
+      match nth_error l (N.to_nat i) with
+      | Some it => insert_at (N.to_nat j) it l
+      | None => l
+      end
+  | TForge i h bl => insert_at (N.to_nat i) (mkItem (h mod 65536) bl None) l
+  | TGrow i => map_nth (fun it => [mkItem (i_hdr it) (i_blen it + 1) None]) (N.to_nat i) l
+  | TShrink i => map_nth (fun it => [shrink_item it]) (N.to_nat i) l
+  | TForeign i => map_nth (fun it => [mkItem (i_hdr it) (i_blen it) None]) (N.to_nat i) l
   end.
 
-Definition tamper_avail (t : tamper) (l : list item) : N :=
-  match t with
-  | TTrunc pos => N.min pos (wire_len l)
-  | _ => wire_len (apply_tamper t l)
+(* several manipulations, one after the other *)
+Definition apply_tampers (ts : list tamper) (l : list item) : list item :=
+  fold_left (fun acc t => apply_tamper t acc) ts l.
+
+(* the earliest cut of the carrier among the manipulations *)
+Fixpoint trunc_of (ts : list tamper) : option N :=
+  match ts with
+  | [] => None
+  | TTrunc pos :: t => Some (match trunc_of t with Some q => N.min pos q | None => pos end)
+  | _ :: t => trunc_of t
   end.
+
+Definition tampers_avail (ts : list tamper) (l : list item) : N :=
+  let l' := apply_tampers ts l in
+  match trunc_of ts with Some pos => N.min pos (wire_len l') | None => wire_len l' end.
 
 (* reader environment of an end-to-end run: the writer's frames, tampered in transit *)
-Definition env_of (c : cfg) (plains : list N) (t : tamper) : renv :=
-  mkEnv c (apply_tamper t (honest plains)) plains (tamper_avail t (honest plains)).
+Definition env_of (c : cfg) (plains : list N) (ts : list tamper) : renv :=
+  mkEnv c (apply_tampers ts (honest plains)) plains (tampers_avail ts (honest plains)).
+
+(* plaintext an honest reader may deliver from a wire: the frames of the longest prefix of items
+   that are, in order, the unmodified ciphertexts k, k+1, .. with a truthful header, and that the
+   carrier delivers completely *)
+Fixpoint clean_prefix (items : list item) (plains : list N) (k avail : N) : N :=
+  match items, plains with
+  | it :: t, p :: pt =>
+      if (i_hdr it =? i_blen it) && (i_blen it =? p + TAG)
+         && match i_auth it with Some j => j =? k | None => false end
+         && (item_len it <=? avail)
+      then p + clean_prefix t pt (k + 1) (avail - item_len it)
+      else 0
+  | _, _ => 0
+  end.
+
+(* ------------------------------------------------------------------ one socket, both halves *)
+
+(* A NoiseSocket is a reader and a writer that share the carrier and the Noise context (two
+   independent cipher states).  Calls on the two halves may alternate in any order. *)
+Inductive sop := SR (b : N) | SW (o : wop).
+Inductive srec := QR (x : rres) (r : reader) | QW (x : wres) (w : writer).
+
+Fixpoint run_mixed (c : cfg) (e : renv) (ops : list sop) (rsc wsc : list N) (r : reader) (w : writer)
+  : list srec * reader * writer * bool :=
+  match ops with
+  | [] => ([], r, w, true)
+  | SR b :: t =>
+      let '(x, r', rsc') := poll_read e b rsc r in
+      if is_final x then ([QR x r'], r', w, false)
+      else let '(l, rf, wf, ok) := run_mixed c e t rsc' wsc r' w in (QR x r' :: l, rf, wf, ok)
+  | SW o :: t =>
+      let '(x, w', wsc') := wstep c o wsc w in
+      if w_is_final x then ([QW x w'], r, w', false)
+      else let '(l, rf, wf, ok) := run_mixed c e t rsc wsc' r w' in (QW x w' :: l, rf, wf, ok)
+  end.
+
+Definition reads_of (ops : list sop) : list N :=
+  flat_map (fun o => match o with SR b => [b] | SW _ => [] end) ops.
+Definition wops_of (ops : list sop) : list wop :=
+  flat_map (fun o => match o with SW o => [o] | SR _ => [] end) ops.
+Definition rrecs_of (l : list srec) : list (rres * reader) :=
+  flat_map (fun q => match q with QR x r => [(x, r)] | QW _ _ => [] end) l.
+Definition wrecs_of (l : list srec) : list (wres * writer) :=
+  flat_map (fun q => match q with QW x w => [(x, w)] | QR _ _ => [] end) l.
+
+(* ------------------------------------------------------------------ a connection: two directions, rounds *)
+
+(* one direction of a connection: the writer half of one socket, the reader half of the other,
+   and what the network has delivered so far *)
+Record flow := mkFlow {
+  f_w : writer;
+  f_r : reader;
+  f_items : list item;    (* the wire delivered to the reader's carrier so far (as tampered) *)
+  f_plains : list N;      (* the writer's frames that reached the carrier completely *)
+  f_avail : N;
+  f_cut : bool;           (* the carrier was cut: it never delivers more *)
+  f_D : N                 (* plaintext bytes delivered so far (ghost) *)
+}.
+
+Definition flow_init (c : cfg) : flow := mkFlow writer_init (reader_init c) [] [] 0 false 0.
+Definition flow_env (c : cfg) (f : flow) : renv := mkEnv c (f_items f) (f_plains f) (f_avail f).
+
+Definition nlen {A} (l : list A) : N := N.of_nat (length l).
+
+(* the network takes the frames that have reached the carrier completely since the last
+   delivery, manipulates them, and puts them behind what the reader's carrier already holds *)
+Definition deliver (ts : list tamper) (f : flow) : flow * list N :=
+  let all := sent_frames (w_frames (f_w f)) (w_sent (f_w f)) in
+  let new := skipn (length (f_plains f)) all in
+  let plains' := f_plains f ++ new in
+  if f_cut f then (mkFlow (f_w f) (f_r f) (f_items f) plains' (f_avail f) true (f_D f), new)
+  else
+    let ti := apply_tampers ts (honest_from (nlen (f_plains f)) new) in
+    let base := wire_len (f_items f) in
+    match trunc_of ts with
+    | Some pos =>
+        (mkFlow (f_w f) (f_r f) (f_items f ++ ti) plains' (base + N.min pos (wire_len ti)) true (f_D f), new)
+    | None =>
+        (mkFlow (f_w f) (f_r f) (f_items f ++ ti) plains' (base + wire_len ti) false (f_D f), new)
+    end.
+
+Fixpoint mdelivered (l : list srec) : N :=
+  match l with
+  | [] => 0
+  | QR (RReady n _) _ :: t => n + mdelivered t
+  | _ :: t => mdelivered t
+  end.
+
+(* a round: side d writes (d = false: the dialer); the network delivers; the other side reads,
+   and may use its own writer half in between (those frames travel in a later round) *)
+Record round := mkRound {
+  rd_dir : bool;
+  rd_wops : list wop; rd_wsc : list N;
+  rd_tampers : list tamper;
+  rd_sched : list sop; rd_rsc : list N; rd_xsc : list N
+}.
+
+Record rtrace := mkRT {
+  rt_wrecs : list (wres * writer);
+  rt_ok : bool;                          (* no writer call panicked *)
+  rt_flush : wres * writer;              (* the final flush against an all-accepting carrier *)
+  rt_new : list N;                       (* plaintext lengths of the frames delivered in this round *)
+  rt_avail : N;
+  rt_mixed : list srec;
+  rt_ok2 : bool
+}.
+
+Definition set_w (f : flow) (w : writer) : flow :=
+  mkFlow w (f_r f) (f_items f) (f_plains f) (f_avail f) (f_cut f) (f_D f).
+Definition set_r (f : flow) (r : reader) (D : N) : flow :=
+  mkFlow (f_w f) r (f_items f) (f_plains f) (f_avail f) (f_cut f) D.
+
+(* F: the flow of the round's direction, G: the opposite flow (only its writer is used) *)
+Definition run_round (c : cfg) (rd : round) (F G : flow) : rtrace * flow * flow * bool :=
+  let '(wtr, w1, ok) := run_writer c (rd_wops rd) (rd_wsc rd) (f_w F) in
+  if negb ok then (mkRT wtr false (WPanic, w1) [] 0 [] false, set_w F w1, G, false)
+  else
+    let '(fx, fw, _) := poll_flush c [] w1 in
+    if w_is_final fx then (mkRT wtr true (fx, fw) [] 0 [] false, set_w F fw, G, false)
+    else
+      let '(F2, new) := deliver (rd_tampers rd) (set_w F fw) in
+      let '(recs, r', wg, ok2) :=
+        run_mixed c (flow_env c F2) (rd_sched rd) (rd_rsc rd) (rd_xsc rd) (f_r F2) (f_w G) in
+      (mkRT wtr true (fx, fw) new (f_avail F2) recs ok2,
+       set_r F2 r' (f_D F2 + mdelivered recs), set_w G wg, ok2).
+
+(* state: (flow 0 = dialer writes, flow 1 = listener writes) *)
+Fixpoint run_rounds (c : cfg) (rds : list round) (F0 F1 : flow) : list rtrace * flow * flow * bool :=
+  match rds with
+  | [] => ([], F0, F1, true)
+  | rd :: t =>
+      if rd_dir rd then
+        let '(tr, F1', F0', ok) := run_round c rd F1 F0 in
+        if ok then let '(l, A, B, ok') := run_rounds c t F0' F1' in (tr :: l, A, B, ok')
+        else ([tr], F0', F1', false)
+      else
+        let '(tr, F0', F1', ok) := run_round c rd F0 F1 in
+        if ok then let '(l, A, B, ok') := run_rounds c t F0' F1' in (tr :: l, A, B, ok')
+        else ([tr], F0', F1', false)
+  end.
